@@ -105,10 +105,20 @@ def run(idx: Index, rep: Report, tier: str) -> None:
     wr = idx.func("model.walkers.substituter.Substituter.walk_replace_or_identity")
     rep.note_function(wr.qualname)
     gets = [a for a in walk_no_nested(wr.node) if isinstance(a, ast.Assign) and isinstance(a.value, ast.Call) and call_name(a.value) == "get" and norm(a.value.func.value) == "subs" and norm(a.value.args[0]) == "expression"]
-    ok = bool(gets)
+    # … or `subs[expression]` (under `expression in subs`), and every lookup in the map uses the node itself
+    lookups = [x for x in walk_no_nested(wr.node) if (isinstance(x, ast.Subscript) and norm(x.value) == "subs") or (isinstance(x, ast.Call) and call_name(x) == "get" and isinstance(x.func, ast.Attribute) and norm(x.func.value) == "subs")]
+    keys = {norm(x.slice) if isinstance(x, ast.Subscript) else (norm(x.args[0]) if x.args else "?") for x in lookups}
+    ok = bool(gets) or (bool(lookups) and keys == {"expression"})
+    if not gets and lookups:
+        gets = lookups
     rep.check(ok, rule3, "the node itself (not its rewritten form) is looked up in the map", wr.loc(gets[0]) if gets else wr.loc(), construct=norm(gets[0]) if gets else "", detail="" if ok else "keys are matched against something other than the original node", function=wr.qualname)
     if gets:
-        v = norm(gets[0].targets[0])
+        if isinstance(gets[0], ast.Assign):
+            v = norm(gets[0].targets[0])
+        else:
+            # the local the looked-up value is bound to (`res = subs[expression]`), else the lookup itself
+            holder = [a for a in walk_no_nested(wr.node) if isinstance(a, ast.Assign) and any(x is gets[0] for x in ast.walk(a.value)) and isinstance(a.targets[0], ast.Name)]
+            v = norm(holder[0].targets[0]) if holder else norm(gets[0])
         rets = [r for r in walk_no_nested(wr.node) if isinstance(r, ast.Return)]
         direct = [r for r in rets if r.value is not None and norm(r.value) == v]
         rep.check(bool(direct), rule3, "a mapped value is returned as is (not substituted again)", wr.loc(direct[0]) if direct else wr.loc(), construct=f"return {v}", function=wr.qualname)
